@@ -777,6 +777,8 @@ inductive CStep (s : CState) : CState → Prop where
       CStep s (finishOp (pullF s).1 (pullF s).2.1 (pullF s).2.2)
   | clear (rest : List Op) : s.pc = .idle → s.prog = Op.clear :: rest →
       CStep s (finishOp (clearF s).1 (clearF s).2 none)
+  | reject (rest : List Op) : s.pc = .idle → s.prog = Op.reject :: rest →
+      CStep s (finishOp s .rejected none)
   | send (ch : List Elem) (wr : Chan (List Elem)) : s.pc = .pushSend → s.m.chunk = some ch →
       s.writable.send ch = some wr →
       CStep s { s with writable := wr, wg := s.wg + 1, writers := s.writers ++ [{}], pc := .pushRecv }
@@ -851,6 +853,9 @@ theorem cstep_cases {s t : CState} (h : cstep s = some t) : CStep s t := by
       | clear =>
         have e1 : cstep s = some (finishOp (clearF s).1 (clearF s).2 none) := by simp [cstep, hpc, hprog]
         rw [e1] at h; cases h; exact .clear rest hpc hprog
+      | reject =>
+        have e1 : cstep s = some (finishOp s .rejected none) := by simp [cstep, hpc, hprog]
+        rw [e1] at h; cases h; exact .reject rest hpc hprog
   · cases hch : s.m.chunk with
     | none => simp [cstep, hpc, hch] at h
     | some ch =>
@@ -879,6 +884,7 @@ theorem cstep_cases {s t : CState} (h : cstep s = some t) : CStep s t := by
         | finalise => simp [cstep, hpc, hpool, hprog] at h
         | pull => simp [cstep, hpc, hpool, hprog] at h
         | clear => simp [cstep, hpc, hpool, hprog] at h
+        | reject => simp [cstep, hpc, hpool, hprog] at h
   · cases hch : s.m.chunk with
     | none => simp [cstep, hpc, hch] at h
     | some ch =>
@@ -1021,6 +1027,7 @@ theorem Reported_cstep {s t : CState} (hs : Str s) (h : Reported s) (hst : CStep
   | finEmpty => apply Reported_finish_of h; rfl
   | pull => exact Reported_finish_of h (pullF_frame s).outs _ _
   | clear => exact Reported_finish_of h (clearF_frame s).outs _ _
+  | reject => apply Reported_finish_of h; rfl
   | send => exact h
   | recvErr => apply Reported_finish_of h; rfl
   | recvOk => apply Reported_finish_of h; rfl
@@ -1047,6 +1054,7 @@ theorem Pending_cstep {s t : CState} (hs : Str s) (h : Pending s) (hst : CStep s
   | finEmpty _ _ _ _ _ _ _ he => rw [herr] at he; cases he
   | pull rest _ hp => rcases hprog with ⟨e, r, h'⟩ | ⟨r, h'⟩ <;> rw [h'] at hp <;> cases hp
   | clear rest _ hp => rcases hprog with ⟨e, r, h'⟩ | ⟨r, h'⟩ <;> rw [h'] at hp <;> cases hp
+  | reject rest _ hp => rcases hprog with ⟨e, r, h'⟩ | ⟨r, h'⟩ <;> rw [h'] at hp <;> cases hp
   | send => exact Or.inr ⟨herr, hprog⟩
   | recvErr e rest r _ _ _ he => rw [herr] at he; cases he; exact Or.inl (Reported_finish _)
   | recvOk _ _ _ _ _ he => rw [herr] at he; cases he
@@ -1232,6 +1240,9 @@ theorem F_cstep {s t : CState} {xs todo ch cp : List Elem} (hc : 1 ≤ c) (hs : 
     rw [hF.prog] at hp
     rcases head_push_or_fin todo (tailOps cy) with ⟨e, r, h'⟩ | ⟨r, h'⟩ <;> rw [h'] at hp <;> cases hp
   | clear rest _ hp =>
+    rw [hF.prog] at hp
+    rcases head_push_or_fin todo (tailOps cy) with ⟨e, r, h'⟩ | ⟨r, h'⟩ <;> rw [h'] at hp <;> cases hp
+  | reject rest _ hp =>
     rw [hF.prog] at hp
     rcases head_push_or_fin todo (tailOps cy) with ⟨e, r, h'⟩ | ⟨r, h'⟩ <;> rw [h'] at hp <;> cases hp
   | fsend _ _ hpc => rcases pcne hpc with h | h | h <;> cases h
@@ -1454,6 +1465,7 @@ theorem Z_cstep {s t : CState} {A : List Writer} {cp : List Elem} (hs : Str s)
   | finEmpty _ _ _ _ _ hpc => rcases pcne hpc with h | h | h <;> cases h
   | pull _ hpc => rcases pcne hpc with h | h | h <;> cases h
   | clear _ hpc => rcases pcne hpc with h | h | h <;> cases h
+  | reject _ hpc => rcases pcne hpc with h | h | h <;> cases h
   | send _ _ hpc => rcases pcne hpc with h | h | h <;> cases h
   | recvErr _ _ _ hpc => rcases pcne hpc with h | h | h <;> cases h
   | recvOk _ _ hpc => rcases pcne hpc with h | h | h <;> cases h
@@ -1640,6 +1652,7 @@ theorem D_cstep {s t : CState} (hD : PhaseD c ac cy s) (hst : CStep s t) : CInv 
   | finFast _ _ _ h' => rcases progne h' with h | h <;> cases h
   | finDisk _ _ _ h' => rcases progne h' with h | h <;> cases h
   | finEmpty _ _ _ _ _ _ h' => rcases progne h' with h | h <;> cases h
+  | reject _ _ h' => rcases progne h' with h | h <;> cases h
   | send _ _ hpc => cases pcne hpc
   | recvErr _ _ _ hpc => cases pcne hpc
   | recvOk _ _ hpc => cases pcne hpc
@@ -1785,6 +1798,7 @@ theorem E_cstep {s t : CState} (hE : PhaseEnd c ac cy s) (hst : CStep s t) : CIn
   | finEmpty _ _ _ _ _ _ h' => exact (progne h').elim
   | pull _ _ h' => exact (progne h').elim
   | clear _ _ h' => exact (progne h').elim
+  | reject _ _ h' => exact (progne h').elim
   | send _ _ hpc => cases pcne hpc
   | recvErr _ _ _ hpc => cases pcne hpc
   | recvOk _ _ hpc => cases pcne hpc
@@ -2012,6 +2026,7 @@ theorem NoFault_cstep {s t : CState} (h : NoFault s) (hst : CStep s t) : NoFault
     obtain ⟨a, b, c'⟩ := clearF_nofault hf
     apply NoFault_finish h0 b c' (clearF_frame s).outs _ _
     rw [a]; simp
+  | reject => exact NoFault_finish h0 hf he rfl _ _ (by simp)
   | send => exact ⟨hf, he, ho⟩
   | recvOk =>
     apply NoFault_finish h0
@@ -2199,6 +2214,7 @@ theorem EofDir_cstep {s t : CState} (h : EofDir s) (hst : CStep s t) : EofDir t 
       (fun h' => by
         have := (clearF_nofault h.1.1).1
         rw [this] at h'; cases h')
+  | reject => exact EofDir_finish h hn rfl rfl id (fun h' => by cases h')
   | send => exact ⟨hn, h.2⟩
   | recvOk => exact EofDir_finish h hn rfl rfl id (fun h' => by cases h')
   | fsend => exact ⟨hn, h.2⟩
@@ -2414,6 +2430,7 @@ theorem DiskInv_cstep {s t : CState} (hs : Str s) (h : DiskInv s) (hst : CStep s
   | finErr _ _ hpc => exact DiskInv_finishOp h0 (by rw [hpc]; simp) _ _
   | finNil _ hpc => exact DiskInv_finishOp h0 (by rw [hpc]; simp) _ _
   | waitErr _ hpc => exact DiskInv_finishOp h0 (by rw [hpc]; simp) _ _
+  | reject _ hpc => exact DiskInv_finishOp h0 (by rw [hpc]; simp) _ _
   | pushFull _ _ _ hpc =>
     exact ⟨hf, hac, hacl, by
       show s.onDisk = s.m.files.length + cnt atReg { s with pc := CPc.pushSend }
